@@ -567,7 +567,7 @@ func gen(r *h.Rand, tier string, emit func([]string)) {
 	errorCases(r, tier, emit)
 	nLookup, nDelete, nCrash, nTs := 120, 200, 36, 50
 	if tier == "thorough" {
-		nLookup, nDelete, nCrash, nTs = 2500, 5000, 400, 600
+		nLookup, nDelete, nCrash, nTs = 1200, 2400, 200, 300
 	}
 	for i := 0; i < nLookup; i++ {
 		nk := 1 + r.Intn(8)
